@@ -708,6 +708,12 @@ func runConfigRT(x *X, cs *Case) {
 			x.violate(k+"density differs", fmt.Sprintf("%s<%s> → %s: %s", d.Name, cs.ST, rd, bad), cs)
 			continue
 		}
+		// use of the restored object: a clone of it and the result of a second round trip
+		// must be the same distribution again
+		if c2, d2 := useDist(x, d, t, rd, obj, dec, orig); c2 != "" {
+			x.violate(k+"use of the restored object: "+c2, fmt.Sprintf("%s<%s> → %s: %s", d.Name, cs.ST, rd, d2), cs)
+			continue
+		}
 		nok := 0
 		for _, p := range orig.probes {
 			if p.status == "ok" {
@@ -723,6 +729,60 @@ func runConfigRT(x *X, cs *Case) {
 	if cs.ST == "Float64" && d.Nested {
 		x.c.Sample(map[string]any{"distribution": d.Name, "config": compactJSON(enc)})
 	}
+}
+
+// useDist: the restored distribution as source of Clone and of a further round trip.
+func cloneDist(dec st.ConfigurableDistribution) (cl st.ConfigurableDistribution, pc string) {
+	pc = guard("Clone", func() {
+		switch y := dec.(type) {
+		case st.ScalarPdf:
+			cl, _ = y.CloneScalarPdf().(st.ConfigurableDistribution)
+		case st.VectorPdf:
+			cl, _ = y.CloneVectorPdf().(st.ConfigurableDistribution)
+		case st.MatrixPdf:
+			cl, _ = y.CloneMatrixPdf().(st.ConfigurableDistribution)
+		}
+	})
+	return
+}
+
+// The clone of the restored object is compared with the clone of the ORIGINAL (what Clone
+// does to an object - e.g. the clone of a constrained HMM is a plain HMM - is not the
+// codec's matter).
+func useDist(x *X, d *distT, t ad.ScalarType, reader string, obj, dec st.ConfigurableDistribution, orig distObs) (cls, detail string) {
+	if oc, pc := cloneDist(obj); pc == "" && oc != nil {
+		if ocObs, prob := observeDist(oc, false); prob == "" {
+			cl, pc := cloneDist(dec)
+			if pc != "" || cl == nil {
+				return "clone fails", "the original can be cloned, the restored object cannot: " + pc
+			}
+			got, prob := observeDist(cl, false)
+			if prob != "" {
+				return "clone " + problemClass(prob), "the clone of the restored object cannot be read: " + prob
+			}
+			if c, dt := compareDistObs(d, ocObs, got); c != "" {
+				return "clone differs (" + c + ")", "the clone of the restored object differs from the clone of the original: " + dt
+			}
+		}
+	}
+	fn := x.tmpFile(".json")
+	os.Remove(fn)
+	var err error
+	if pc := guard("ExportDistribution", func() { err = st.ExportDistribution(fn, dec) }); pc != "" || err != nil {
+		return "second round trip: encode fails", fmt.Sprintf("ExportDistribution of the restored object fails: %v %s", err, pc)
+	}
+	dec2, err, pc := importVia(reader, fn, d, t)
+	if pc != "" || err != nil || dec2 == nil {
+		return "second round trip: decode fails", fmt.Sprintf("%s of the re-exported restored object fails: %v %s", reader, err, pc)
+	}
+	got, prob := observeDist(dec2, false)
+	if prob != "" {
+		return "second round trip " + problemClass(prob), prob
+	}
+	if c, dt := compareDistObs(d, orig, got); c != "" {
+		return "second round trip differs (" + c + ")", "after a second round trip: " + dt
+	}
+	return "", ""
 }
 
 func runMalformedConfig(x *X, cs *Case) {
